@@ -82,8 +82,10 @@ Section G.
      (sig_dep, bkg_dep); the gradient mask is the separately computed `m` of get_gradient *)
   Definition sob_eval (zero_bkg s ds b db : T) (sig_dep bkg_dep : bool) : T * T :=
     (sob_ratio Nm zero_bkg s b,
-     if negb sig_dep && negb bkg_dep then nzero Nm
-     else if sig_dep && negb bkg_dep then sob_grad_sig Nm ds b
-     else if sig_dep && bkg_dep then sob_grad_both Nm s ds b db
-     else sob_grad_bkg Nm s b db).
+     if lk_sobg_case1 sig_dep bkg_dep then nzero Nm                 (* case 1: zeros *)
+     else if lk_sobg_mask Nm b then
+       (if lk_sobg_case2 sig_dep bkg_dep then k_sob_grad_sig Nm ds b
+        else if lk_sobg_case4 sig_dep bkg_dep then k_sob_grad_both Nm ds b db s
+        else k_sob_grad_bkg Nm s b db)
+     else nzero Nm).                                                (* grad[m] = ...: rows outside m stay 0 *)
 End G.
